@@ -17,7 +17,8 @@ def make_batches(pid, kinds, n_quick, n_thorough, cons_prob=0.0, n_dv=(0, 2), ou
             layered = (i % 6) == 5            # hierarchical / merged design spaces with nested choices
             for _try in range(60):
                 c = (dsgcase.gen_flat_cons(rng) if cons_prob and (i % 12) == 10 else       # two constraints at once
-                     [dsgcase.gen_cross, dsgcase.gen_fanin, dsgcase.gen_cycles][(i // 12) % 3](rng) if (i % 12) == 4 else
+                     [dsgcase.gen_cross, dsgcase.gen_fanin, dsgcase.gen_cycles, dsgcase.gen_shared_dag][(i // 12) % 4](rng) if (i % 12) == 4 else
+                     dsgcase.gen_shared_dag(rng) if (i % 12) == 8 else
                      dsgcase.gen_layered(rng, cons_prob=cons_prob) if layered else
                      dsgcase.gen_sel(rng, max_nodes=10, cons_prob=cons_prob))
                 g = dsgcase.guards(c)
